@@ -134,7 +134,10 @@ def unhex_ok(ans):
     if ans is None or not ans.startswith("ok:"):
         return None
     h = ans[3:]
-    return b"" if h == "-" else bytes.fromhex(h)
+    try:
+        return b"" if h == "-" else bytes.fromhex(h)
+    except ValueError:
+        return None
 
 
 # =============================================================================================== OTFAD
@@ -1170,8 +1173,14 @@ def run_cases(s, drv, cases, chunk=120):
                 f()
 
 
+# driver ops that evaluate ONLY lean/SpsdkVerif/Spec/FlashEncHw.lean (+ Crypto/*): the hardware / ROM side with hand-written
+# constants, independent of Generated/ and of the model of the code.  Every s.expect() that looks at a driver answer uses one of these.
+SPEC_OPS = {"otfad_hw", "otfad_hwtab", "otfad_unwrap", "iee_unwrap", "iee_hwtab", "bee_hw", "bee_unhdr", "bee_hwhdr"}
+
+
 def setup(ck):
     import logging
+    ck.spec_ops = set(SPEC_OPS)
     logging.getLogger("spsdk").setLevel(logging.CRITICAL)   # "Image address range is not within key blob" warnings are expected here
     ck.lean_obligations(generated=["FlashEncConsts"])
     drv = ck.driver()
